@@ -72,12 +72,38 @@ def managedLine (nobs : Nat) (sched : List Nat) : String :=
     (MState.init, [])
   s!"ok trace={joinStr trace.reverse} samples={joinStr (s.samples.map sampleStr)}"
 
+/-- The per-thread *call signature* field `sig=<s0>,<s1>,...` of a schedule / soak / probe line: which
+    instantiation of the member template `Singleton<T>::instance< Args...>()` thread `i` uses for its first
+    access (entry `i mod length`; 0 `instance()`, 1 `instance( 32)`, 2 `instance( lvalue)`).  The model has ONE
+    class-wide mutex and one cell whatever the signature (`sstep` has no such parameter), so the field is only
+    validated here and then ignored: the model's answer for the schedule without the field is the expectation
+    (seeded/C20-4 makes the mutex a function-local static, i.e. one per instantiation). -/
+def sigOk (tok : String) : Bool :=
+  if !tok.startsWith "sig=" then false else
+  let s := (tok.drop 4).toString
+  if s.isEmpty || s == "-" || !s.toList.all (fun c => c.isDigit || c == ',') then false else
+  match natList s with
+  | some l => !l.isEmpty && l.length ≤ 64 && l.all (· ≤ 2)
+  | none => false
+
 def step (_ : Unit) (line : String) : Unit × String :=
   match tokens line with
   | ["case", _] => ((), "ok")
   | ["conc", "singleton", n, sched] =>
     match n.toNat?, natList sched with
     | some n, some sc => if n ≤ 64 then ((), singletonLine n sc) else ((), "bad-op")
+    | _, _ => ((), "bad-op")
+  | ["conc", "singleton", n, sched, sig] =>
+    -- mixed call signatures: the model ignores the field (one class-wide mutex)
+    match n.toNat?, natList sched with
+    | some n, some sc => if n ≤ 64 && sigOk sig then ((), singletonLine n sc) else ((), "bad-op")
+    | _, _ => ((), "bad-op")
+  | ["conc", "probe-lock", sig] => if sigOk sig then ((), "ok excluded") else ((), "bad-op")
+  | ["conc", "soak", "singleton", n, r, sig] =>
+    match n.toNat?, r.toNat? with
+    | some n, some r =>
+      if n < 1 || n > 64 || r < 1 || r > 100000 || !sigOk sig then ((), "bad-op")
+      else ((), s!"ok soak singleton threads={n} rounds={r} built=1 same=1")
     | _, _ => ((), "bad-op")
   | ["conc", "managed", n, sched] =>
     match n.toNat?, natList sched with
